@@ -32,7 +32,10 @@ TRUSTED = [
     "(Prenex.canon) and up to the order of quantified variables; inputs without array theory (a Boolean array read makes the walker raise)",
     "models/PropTop.v (propagate_toplevel with do_simplify=False: conjunct scan, DisjointSet with ranking, sigma, substitution, "
     "re-asserted equalities) takes the node-id order of the equalities' arguments from the implementation (node ids are not part "
-    "of a term) and is compared up to the order of And arguments; inputs without Div/Pow/ToReal/arrays/strings (normalising constructors)",
+    "of a term) and is compared up to the order of And arguments; inputs without Div/Pow/ToReal/arrays/strings (normalising constructors); "
+    "do_simplify=True is tied through C01's simplifier model (models/Simplifier.v, order oracle = orders observed while a fresh "
+    "Simplifier runs on the unsimplified result, as in harness/c01.py) applied to the implementation's unsimplified result, and through "
+    "the composed model propagate_toplevel_simp whenever the model's unsimplified result equals the implementation's node for node",
     "the memoised DAG walk is replaced by structural recursion (licensed by DagWalk_proofs.walk_refines, C20/C14)",
     "tocoq.py (FNode -> Gallina literal); refeval.py (independent evaluator) for the SEARCH oracle only",
 ]
@@ -625,6 +628,7 @@ def bound_symbols(f):
 
 def run_proptop(b):
     from pysmt.rewritings import propagate_toplevel, conjunctive_partition
+    from . import c01
     for variant in (0, 1):
         env = Environment()
         push_env(env)
@@ -663,8 +667,23 @@ def run_proptop(b):
                 out = propagate_toplevel(f, env, do_simplify=False)
                 out_s = propagate_toplevel(f, env)
                 ids = sorted(set(a for c in conjunctive_partition(f) if c.is_equals() for a in c.args()), key=lambda n: n.node_id())
-                b.cases.append(([f, out] + ids, (lambda names, f=f, out=out, ids=ids:
-                                                 "(%s, [%s], %s)" % (names[f], "; ".join(names[a] for a in ids), names[out]))))
+                # do_simplify=True through C01's simplifier model: the orders the implementation takes from sets / node ids
+                # are recorded while a fresh Simplifier runs on the unsimplified result (as harness/c01.py does)
+                rs, exc, records = c01.impl_simplify(env, out)
+                if rs is not out_s:
+                    b.stats["simplify_rerun_differs"] = b.stats.get("simplify_rerun_differs", 0) + 1
+                    b.chk.violation({"kind": "obligation", "theorem_or_correspondence":
+                                     "propagate_toplevel(f) is not Simplifier(env).simplify(propagate_toplevel(f, do_simplify=False)) on %s"
+                                     % f.serialize()[:300]}, found_input=False)
+                roots = [f, out] + ids + ([out_s] if out_s is not None else [])
+                for frm, args, res in records:
+                    roots += list(args) + [res]
+                b.cases.append((roots, (lambda names, f=f, out=out, ids=ids, out_s=out_s, records=records:
+                                        "(%s, [%s], %s, [%s], %s)" % (
+                                            names[f], "; ".join(names[a] for a in ids), names[out],
+                                            "; ".join("(%s, [%s], %s)" % (tocoq.opr(frm), "; ".join(names[a] for a in args), names[res])
+                                                      for frm, args, res in records),
+                                            "(Some %s)" % names[out_s]))))
                 b.meta.append(f.serialize()[:400])
                 b.chk.count(("proptop", tocoq.skey(f)), nontrivial=out is not f)
                 eq_syms = set(a for c in conjunctive_partition(f) if c.is_equals() for a in c.args() if a.is_symbol())
@@ -685,10 +704,25 @@ PRENEX_COQ = ("From PySMT.models Require Import C10Local Prenex.", "nat * term *
               "Definition ok (c : nat * term * term) : bool :=\n"
               "  let '(n, t, o) := c in\n"
               "  match prenex n t with Some r => ac_eqb (canon r) (canon o) && pq_frag t | None => false end.\n")
-PROPTOP_COQ = ("From PySMT.models Require Import C10Local PropTop.", "term * list term * term",
-               "Definition ok (c : term * list term * term) : bool :=\n"
-               "  let '(t, order, o) := c in\n"
-               "  match propagate_toplevel order t with Some r => ac_eqb r o | None => false end.\n")
+PROPTOP_COQ = ("From PySMT.models Require Import C10Local PropTop PropTopSimp.\nFrom PySMT.models Require Simplifier.",
+               "term * list term * term * list (op * list term * term) * option term",
+               "Definition entry := (op * list term * term)%type.\n"
+               "Definition lookup (tbl : list entry) : Simplifier.oracle := fun o args =>\n"
+               "  match find (fun e : entry => op_eqb o (fst (fst e)) && list_eqb term_eqb args (snd (fst e))) tbl with\n"
+               "  | Some e => Some (snd e) | None => None end.\n"
+               "Definition ok (c : term * list term * term * list entry * option term) : bool :=\n"
+               "  let '(t, order, o, tbl, os) := c in\n"
+               "  (* do_simplify=False: the model's result up to the order of And arguments *)\n"
+               "  match propagate_toplevel order t with Some r => ac_eqb r o | None => false end &&\n"
+               "  (* do_simplify=True: C01's simplifier model on the unsimplified result, exactly *)\n"
+               "  match Simplifier.simplify_opt (lookup tbl) o, os with\n"
+               "  | Some s, Some e => term_eqb s e | None, None => true | _, _ => false end &&\n"
+               "  (* the composed model, when its intermediate result is the implementation's node for node *)\n"
+               "  match propagate_toplevel order t with\n"
+               "  | Some r => if term_eqb r o then match propagate_toplevel_simp (lookup tbl) order t, os with\n"
+               "                                   | Some s, Some e => term_eqb s e | None, None => true | _, _ => false end\n"
+               "              else true\n"
+               "  | None => false end.\n")
 
 BATCHES = [("nnf", run_nnf), ("aig", run_aig), ("partition", run_partition), ("qelim", run_qelim), ("timesdist", run_timesdist),
            ("prenex", run_prenex), ("proptop", run_proptop)]
@@ -730,6 +764,8 @@ def escalate(b, budget=150.0):
 def run(tier, only=None):
     chk = lib.Check("C10", tier)
     rnd = random.Random(chk.seed)
+    from . import gen_all
+    gen_all.regen_all()      # coq/gen (operator table, dispatch tables) is rebuilt from the repository under test
     ok = chk.prove()
     lib.clean_cases(chk.dir)
     files_of = {}
